@@ -59,6 +59,17 @@ def cases(tier, seed):
             if prof == "burst":
                 s["par"] = 8
         out.append(s)
+    # the operating system refuses to start (some of) the workers: the stage must say so or still do everything
+    for i in range(12 if tier == "quick" else 150):
+        st = ["leaves", "mtan", "u8", "mwcs", "doone", "mtan"][i % 6]
+        s = dict(stage=st, profile="natural", par=R.choice([2, 3]), seed=R.randrange(1 << 30), long_item=False, kill_item=False, forkfail=R.choice([0, 0, 1]))
+        if st == "leaves":
+            s["pyr"] = gens.gen_pyramid(R, maxdepth=3, mindepth=1, sub_p=0.2)
+        elif st in ("u8", "doone"):
+            s.update(depth=R.choice([1, 2]), fill=1.0)
+        else:
+            s.update(n_inputs=R.choice([2, 3]), fmt_bu=False, small=(i % 4 == 1))
+        out.append(s)
     # the shutdown window of the multi-image stages exists only for inputs that fit into the pipe buffer (the flush of a
     # larger one waits for a reader): small inputs, few workers, workers descheduled right after an empty poll
     for i in range(14 if tier == "quick" else 200):
@@ -110,8 +121,27 @@ def _generic_history_checks(recs, v):
     return puts, gets
 
 
-def _run(fn, log, par, kind="producer", hostile=None):
+def _run(fn, log, par, kind="producer", hostile=None, forkfail=None):
     if par > 1:
+        if forkfail is not None:
+            # the operating system refuses to create more than `forkfail` worker processes (EAGAIN: ulimit -u, cgroup limit)
+            inner = fn
+
+            def fn():
+                import errno
+
+                real, n = os.fork, [0]
+
+                def fork():
+                    n[0] += 1
+                    if n[0] > forkfail:
+                        evlog.ev("fork_refused", n=n[0])
+                        raise BlockingIOError(errno.EAGAIN, "Resource temporarily unavailable (injected fork failure)")
+                    return real()
+
+                os.fork = fork
+                inner()
+
         return models.run_stage(fn, log, kind, watchdog=120, hostile=hostile)
     evlog.ev("stage_call")
     try:
@@ -121,6 +151,11 @@ def _run(fn, log, par, kind="producer", hostile=None):
     except Exception as e:
         evlog.ev("stage_exc", e=repr(e)[:300])
         return "raised", dict(e=repr(e)[:300])
+
+
+def _forkfail_reported(spec, outcome, recs):
+    """a refused fork that the stage reported to its caller (the only other acceptable outcome is a complete result)"""
+    return spec.get("forkfail") is not None and outcome == "raised" and any(r["k"] == "fork_refused" for r in recs)
 
 
 def _outcome_violation(outcome, info, recs, v):
@@ -175,7 +210,7 @@ def case_leaves(spec, workdir):
                 os.kill(os.getpid(), _signal.SIGKILL)
             evlog.ev("cb_end", pos=p)
 
-        outcome, info = _run(lambda: pyr.visit_leaves(cb, parallel=par), log, par, hostile=(dict(seed=spec["seed"], p=0.03, files=("pyramid.py", "par_util.py", "multi_tan.py", "multi_wcs.py"), lo=0.001, hi=0.06, budget=1.0) if spec["seed"] % 4 == 0 else None))
+        outcome, info = _run(lambda: pyr.visit_leaves(cb, parallel=par), log, par, forkfail=spec.get("forkfail") if tag == "par" else None, hostile=(dict(seed=spec["seed"], p=0.03, files=("pyramid.py", "par_util.py", "multi_tan.py", "multi_wcs.py"), lo=0.001, hi=0.06, budget=1.0) if spec["seed"] % 4 == 0 else None))
         recs = evlog.read(log)
         evlog.close_log()
         res[tag] = (outcome, info, recs, log)
@@ -191,6 +226,10 @@ def case_leaves(spec, workdir):
             r.update(status="violation", key="returned-although-a-worker-was-killed", detail="a worker was SIGKILLed while processing leaf %s, yet visit_leaves returned normally" % (kill_pos,), witness_files=dict(eventlog=log))
         elif outcome == "stuck":
             r.update(status="violation", key="stage-stuck-after-worker-kill", detail="stuck after a worker was SIGKILLed: %s" % info, witness_files=dict(eventlog=log))
+        return r
+    if _forkfail_reported(spec, outcome, recs):
+        r = _result(spec, [], recs, log, items=len(ref), shape=["leaves-forkfail", ps["kind"], depth, spec["par"], spec["forkfail"]])
+        r["counters"]["fork_failures_reported"] = 1
         return r
     _outcome_violation(outcome, info, recs, v)
     puts, gets = _generic_history_checks(recs, v)
@@ -265,7 +304,7 @@ def case_transform(spec, workdir):
                 evlog.ev("cb_end", pos=p)
 
             fn = lambda: transform._do_a_transform(pin, depth, lambda: None, do_one, pio_out=pout, parallel=par)
-        outcome, info = _run(fn, log, par, hostile=(dict(seed=spec["seed"], p=0.03, files=("pyramid.py", "par_util.py", "multi_tan.py", "multi_wcs.py"), lo=0.001, hi=0.06, budget=1.0) if spec["seed"] % 4 == 0 else None))
+        outcome, info = _run(fn, log, par, forkfail=spec.get("forkfail") if tag == "par" else None, hostile=(dict(seed=spec["seed"], p=0.03, files=("pyramid.py", "par_util.py", "multi_tan.py", "multi_wcs.py"), lo=0.001, hi=0.06, budget=1.0) if spec["seed"] % 4 == 0 else None))
         recs = evlog.read(log)
         evlog.close_log()
         res[tag] = (outcome, info, recs, log)
@@ -273,6 +312,10 @@ def case_transform(spec, workdir):
     outcome, info, recs, log = res["par"]
     if outcome == "watchdog":
         return dict(status="inconclusive", detail="watchdog")
+    if _forkfail_reported(spec, outcome, recs):
+        r = _result(spec, [], recs, log, items=0, shape=[spec["stage"] + "-forkfail", spec["par"], spec["forkfail"]])
+        r["counters"]["fork_failures_reported"] = 1
+        return r
     _outcome_violation(outcome, info, recs, v)
     puts, gets = _generic_history_checks(recs, v)
 
@@ -364,7 +407,7 @@ def case_multi(spec, workdir):
                 return np.full(shape_out, val)
 
             fn = lambda: proc.tile(pio, rf, parallel=par)
-        outcome, info = _run(fn, log, par, hostile=(dict(seed=spec["seed"], p=0.03, files=("pyramid.py", "par_util.py", "multi_tan.py", "multi_wcs.py"), lo=0.001, hi=0.06, budget=1.0) if spec["seed"] % 4 == 0 else None))
+        outcome, info = _run(fn, log, par, forkfail=spec.get("forkfail") if tag == "par" else None, hostile=(dict(seed=spec["seed"], p=0.03, files=("pyramid.py", "par_util.py", "multi_tan.py", "multi_wcs.py"), lo=0.001, hi=0.06, budget=1.0) if spec["seed"] % 4 == 0 else None))
         recs = evlog.read(log)
         evlog.close_log()
         res[tag] = (outcome, info, recs, log, proc)
@@ -372,6 +415,10 @@ def case_multi(spec, workdir):
     outcome, info, recs, log, proc = res["par"]
     if outcome == "watchdog":
         return dict(status="inconclusive", detail="watchdog")
+    if _forkfail_reported(spec, outcome, recs):
+        r = _result(spec, [], recs, log, items=len(rects), shape=[spec["stage"] + "-forkfail", spec["par"], spec["forkfail"]])
+        r["counters"]["fork_failures_reported"] = 1
+        return r
     _outcome_violation(outcome, info, recs, v)
     puts, gets = _generic_history_checks(recs, v)
     names = ["p%d.fits" % i for i in range(len(rects))]
